@@ -59,7 +59,7 @@ fn f32_rgb_roundtrip(c: [f32; 3], r: &mut Report) {
         Err(p) => { r.violation(key("f32-to_hsl-panic"), format!("rgb{c:?}.to_hsl() panicked: {p}"), case()); return; }
         Ok(h) => h,
     };
-    if h.iter().any(|x| !(*x >= -1e-6 && *x <= 1.0 + 1e-6)) {
+    if h.iter().any(|x| !(*x >= 0.0 && *x <= 1.0)) {
         r.violation(key("f32-hsl-out-of-range"), format!("rgb{c:?}.to_hsl() = {h:?} out of [0,1]"), case());
         return;
     }
@@ -86,7 +86,7 @@ fn f32_hsl_total(c: [f32; 3], r: &mut Report) {
     match caught(|| hsl(c[0], c[1], c[2]).to_rgb().0) {
         Err(p) => r.violation(key("f32-hsl-panic"), format!("hsl{c:?}.to_rgb() panicked: {p}"), case()),
         Ok(o) => {
-            if o.iter().any(|x| !(*x >= -1e-6 && *x <= 1.0 + 1e-6)) {
+            if o.iter().any(|x| !(*x >= 0.0 && *x <= 1.0)) {
                 r.violation(key("f32-hsl-rgb-out-of-range"), format!("hsl{c:?}.to_rgb() = {o:?} out of [0,1]"), case());
             }
             let e = ref_hsl_to_rgb(c[0] as f64, c[1] as f64, c[2] as f64);
@@ -236,6 +236,16 @@ fn main() {
         f32_rgb_roundtrip([a, a, a], &mut rep);
         for c in [[a, a, b], [a, b, a], [b, a, a], [a, b, b], [b, a, b], [b, b, a]] { f32_rgb_roundtrip(c, &mut rep); }
     }}
+    // near-grays: chroma 1e-6 .. 5e-3 around every gray level k/32 (both signs, every channel pattern)
+    rep.merge(par_range(&cfg, 33 * 9 * 12, |i, r| {
+        let g = (i % 33) as f32 / 32.0;
+        let d = [1e-6f32, 1e-5, 1e-4, 2e-4, 3.3e-4, 5e-4, 1e-3, 2e-3, 5e-3][(i / 33 % 9) as usize];
+        let pat = i / 297;
+        let sgn = if pat >= 6 { -1.0f32 } else { 1.0 };
+        let m = [[1, 0, 0], [0, 1, 0], [0, 0, 1], [1, 1, 0], [0, 1, 1], [1, 0, 1]][(pat % 6) as usize];
+        let c: [f32; 3] = std::array::from_fn(|k| g + sgn * d * m[k] as f32);
+        if c.iter().all(|x| (0.0..=1.0).contains(x)) { f32_rgb_roundtrip(c, r); r.h("near-gray"); }
+    }));
     // grays, float
     rep.merge(par_range(&cfg, 4097, |i, r| { let v = i as f32 / 4096.0; f32_rgb_roundtrip([v, v, v], r); let g: Color3f = gray(v); if g.0 != [v, v, v] { r.violation(format!("gray-ctor|{v}"), "gray() not replicated".into(), J::Null); } }));
     // RGBA / HSLA float wrappers keep alpha
@@ -270,6 +280,6 @@ fn main() {
     rep.merge(par_range(&cfg, lat.len() as u64, |i, r| to_u8_clamp(lat[i as usize], r)));
     rep.sample(0, || obj! {"u8_rgb" => vec![255u8, 0, 128], "f32_rgb" => vec![0.8f32, 1.0, 0.0], "f32_hsl" => vec![0.2f32, 1.0, 0.5], "word" => "0x12345678", "add" => "(200,7,250)+(100,-100,100)"});
     rep.finish(&cfg, "exploration",
-        "all 2^24 RGB8 -> HSL -> RGB (<=8/255), all 2^24 HSL8 -> RGB (total), float RGB grid n^3 plus the six sextant-boundary surfaces (on and one step off) -> HSL -> RGB (<=1e-4, in range, grays), decimal k/100 grids for both directions, grays and near-grays at magnitudes 1e-45..1, float HSL grid (hue k/96, k/1000+.0005, k/6 +-2ulp; s,l grids) -> RGB in range and hue 1 == hue 0, packed-word byte order for all 2^32 RGBA words (quick: 64^4 lattice), u8 saturating add for every channel x delta in -300..300 and large deltas, float->u8 clamp lattice incl. NaN/inf. non-trivial = chromatic colour / saturating sum / out-of-range channel.",
-        &["float tolerance 1e-4 and 8/255 as stated", "out-of-range slack 1e-6 on float channels (the library's own debug assertions are exact and armed in this profile)", "i32 deltas within +-(2^31-256) for saturating add"]);
+        "all 2^24 RGB8 -> HSL -> RGB (<=8/255), all 2^24 HSL8 -> RGB (total), float RGB grid n^3 plus the six sextant-boundary surfaces (on and one step off) -> HSL -> RGB (<=1e-4, in range, grays), decimal k/100 grids for both directions, grays and near-grays at magnitudes 1e-45..1, near-grays with chroma 1e-6..5e-3 around 33 gray levels, float HSL grid (hue k/96, k/1000+.0005, k/6 +-2ulp; s,l grids) -> RGB in range and hue 1 == hue 0, packed-word byte order for all 2^32 RGBA words (quick: 64^4 lattice), u8 saturating add for every channel x delta in -300..300 and large deltas, float->u8 clamp lattice incl. NaN/inf. non-trivial = chromatic colour / saturating sum / out-of-range channel.",
+        &["float tolerance 1e-4 and 8/255 as stated", "float channel ranges are judged exactly (0 <= x <= 1, no slack)", "i32 deltas within +-(2^31-256) for saturating add"]);
 }
